@@ -878,11 +878,11 @@ def check_C15(rep, tier, seed, replay):
 
 
 PROP_THEOREMS = {
-    "C01": ["C01_level0_roundtrip_partial"],
+    "C01": ["C01_levels_above_10_behave_as_10"],
     "C02": ["C02_counts_within_buffers"],
-    "C10": ["C10_tables_inverse"],
-    "C11": ["C11_window_limit_routing"],
+    "C10": ["C10_length_tables_inverse", "C10_distance_tables_inverse"],
+    "C11": ["C11_window_limit_routing", "C11_declared_window"],
     "C12": ["C12_sync_marker"],
-    "C14": ["C14_empty_output_refused", "C14_done_is_stable"],
-    "C15": ["C15_bound_monotone", "C15_level0_size_within_bound"],
+    "C14": ["C14_empty_output_refused", "C14_done_is_stable", "C14_nonfinish_after_finish_is_error"],
+    "C15": ["C15_bound_formula", "C15_bound_monotone", "C15_level0_size_within_bound_partial"],
 }
